@@ -109,11 +109,21 @@ def run(ctx):
         if o1 != 'ok' or o2 != 'ok':
             continue                      # already reported above
         valid_cfgs.append(cfg)
-        n_first[json.dumps(cfg, sort_keys=True)] = str(fmt('ab'))
         text = TEXTS[n % len(TEXTS)] if n % 7 else 'ab'
-        chunk = fmt(text)
-        s = str(chunk)
-        b = bfmt(text.encode('utf-8')).decode('utf-8')
+        try:
+            n_first[json.dumps(cfg, sort_keys=True)] = str(fmt('ab'))
+            chunk = fmt(text)
+            s = str(chunk)
+            b = bfmt(text.encode('utf-8')).decode('utf-8')
+            CHText.strip_colors(s), chunk.plain_text()
+        except Exception as ex:          # noqa
+            from vcheck import real_code_failure
+            msg = real_code_failure(ex)
+            if msg is None:
+                raise
+            ctx.violation({'kind': 'chunk', 'cfg': cfg, 'text': text}, 'formatting a text with a valid configuration: ' + msg)
+            valid_cfgs.pop()
+            continue
         if cfg['nocolor'] and '\x1b' in s:
             ctx.violation({'kind': 'chunk', 'cfg': cfg, 'text': text}, 'no_color formatter emits an escape character: %r' % s)
         cases.append({'chunks': [{'cfg': cfg, 'text': [ord(c) for c in text]}], 'items': _items(s),
